@@ -834,6 +834,11 @@ Proof.
   apply tok_chain_app in C. rewrite toks_end_snoc in C. cbn [tok_chain] in C. tauto.
 Qed.
 
+(* lex_gaps_blank: what lies between the end of one token and the start of the next is a gap *)
+Corollary lex_gaps_blank modes data l1 t1 t2 l2 : lex_stream modes data = Ok (l1 ++ t1 :: t2 :: l2) ->
+  gap_units (slice data (tk_start t1 + tk_len t1) (tk_start t2)).
+Proof. intros E. exact (proj2 (lex_tokens_ordered _ _ _ _ _ _ E)). Qed.
+
 (* the bytes before the first token are a gap as well *)
 Theorem lex_first_gap modes data t ts : lex_stream modes data = Ok (t :: ts) -> gap_units (slice data 0 (tk_start t)).
 Proof. intros E. pose proof (lex_stream_chain _ _ _ E) as C. cbn [tok_chain] in C. tauto. Qed.
@@ -1621,6 +1626,7 @@ Proof. right. exists 10. split; reflexivity. Qed.
      lex_tokens_ordered        : lex_stream modes data = Ok (l1 ++ t1 :: t2 :: l2) ->
                                  tk_start t1 + tk_len t1 <= tk_start t2 /\
                                  gap_units (slice data (tk_start t1 + tk_len t1) (tk_start t2))        (= lex_gaps_blank)
+     lex_gaps_blank            : the second conjunct of lex_tokens_ordered on its own
      lex_first_gap             : lex_stream modes data = Ok (t :: ts) -> gap_units (slice data 0 (tk_start t))
      gap_units_inv             : the exact set a gap is made of (inversion of gap_units)
      lex_stream_tiles          : lex_stream modes data = Ok toks ->
